@@ -1082,6 +1082,77 @@ func (w *pworld) soak(id string, ticks int, redeliver bool) {
 	}
 }
 
+// big-set family (C01/C02/C07/C13): guardian sets beyond the 19 keys of today's mainnet set, up to the 255 the one-byte wire
+// count allows. Own key at a random position; observations in random order up to quorum + 2; an inbound VAA for another
+// message with exactly quorum and with quorum - 1 signatures (taken from the upper end of the set); settle tick.
+func (w *pworld) bigSetFamily(id string, n int) {
+	r := w.r
+	set := make([]pkey, n)
+	for i := range set {
+		set[i] = pnewKey()
+	}
+	own := r.Intn(n)
+	if n > 130 && r.Intn(2) == 0 {
+		own = 128 + r.Intn(n-128)
+	}
+	w.reset(id, set[own])
+	gs := &common.GuardianSet{Index: 3}
+	for _, x := range set {
+		gs.Keys = append(gs.Keys, x.addr)
+	}
+	if !w.setUpdate(gs) {
+		return
+	}
+	var emitter vaa.Address
+	r.Read(emitter[:])
+	k := w.randMsg(emitter, 1)
+	if !w.message(k) {
+		return
+	}
+	d := w.mkVAA(k, gs.Index).SigningMsg().Bytes()
+	q := (n*2)/3 + 1
+	order := r.Perm(n)
+	sent := 0
+	for _, i := range order {
+		if sent >= q+2 {
+			break
+		}
+		if i == own {
+			continue
+		}
+		if !w.observation(w.obsFor(set[i], d)) {
+			return
+		}
+		sent++
+		if sent == q/2 {
+			// own loopback somewhere in the middle
+			if !w.observation(w.obsFor(set[own], d)) {
+				return
+			}
+		}
+	}
+	// inbound VAAs for a message this node never saw: quorum - 1 (rejected) and exactly quorum (stored), top indices
+	k2 := w.randMsg(emitter, 2)
+	base := w.mkVAA(k2, gs.Index)
+	top := func(c int) []int {
+		var ix []int
+		for i := n - c; i < n; i++ {
+			ix = append(ix, i)
+		}
+		return ix
+	}
+	if q >= 2 {
+		if !w.inbound(w.signedVAA(base, gs, set, top(q-1))) {
+			return
+		}
+	}
+	if !w.inbound(w.signedVAA(base, gs, set, top(q))) {
+		return
+	}
+	w.advance(31 * time.Second)
+	w.cleanup(preqCap)
+}
+
 // subset family (C01/C02): every guardian-set size up to nmax, every position of the own key, every subset of the
 // other guardians signing; observations delivered in random order, own loopback at a random position.
 func (w *pworld) subsetFamily(id string, nmax int) {
@@ -1195,6 +1266,13 @@ func TestVerifProcessor(t *testing.T) {
 	}
 	for i := 0; i < nrot; i++ {
 		w.rotationFamily(fmt.Sprintf("r%d", i))
+	}
+	bigs := []int{20, 21, 64, 255}
+	if thorough {
+		bigs = []int{20, 21, 22, 32, 63, 64, 65, 127, 128, 129, 200, 254, 255}
+	}
+	for _, n := range bigs {
+		w.bigSetFamily(fmt.Sprintf("b%d", n), n)
 	}
 	w.soak("k0", 14, false)
 	w.soak("k1", 14, true)
